@@ -24,3 +24,5 @@ Fixpoint gamma (f : formula) : formula :=
   | FQ q vs g => FQ q vs (gamma g)
   end.
 Definition gamma_theory (t : theory) : theory := map gamma t.
+
+(* EXTRACT: gamma gamma_theory here there *)
